@@ -114,7 +114,21 @@ def special_zs(rng):
     """canonical Z values whose STORED (Montgomery) limbs are special: [1,0,0,0] (the integer one, not the field one), [2,0,0,0],
     [0,1,0,0], [0,0,1,0], p-1 raw; and the field elements 1 (affine), -1, 2, a random one"""
     rinv = pow(E.R, -1, P)
-    return [rinv, 2 * rinv % P, (1 << 64) * rinv % P, (1 << 128) * rinv % P, (P - 1) * rinv % P, 1, P - 1, 2, rng.randrange(3, P)]
+    out = [rinv, 2 * rinv % P, (1 << 64) * rinv % P, (1 << 128) * rinv % P, (P - 1) * rinv % P, 1, P - 1, 2, rng.randrange(3, P)]
+    return out + small_order_elements(P)
+
+
+def small_order_elements(m):
+    """elements of multiplicative order 3, 4, 6 modulo the prime m (Z^3 = 1, Z^4 = 1, ...: 'is it one?' tests applied to a power of Z)"""
+    out = []
+    for k in (3, 4, 6):
+        if (m - 1) % k == 0:
+            for g in range(2, 40):
+                w = pow(g, (m - 1) // k, m)
+                if all(pow(w, d, m) != 1 for d in range(1, k)):
+                    out += [w, pow(w, k - 1, m)]
+                    break
+    return out
 
 
 _JPOS = {'sm2_verify': 'sm2_verify_j', 'sm2_verify_raw': 'sm2_verify_raw_j', 'sm2_enc': 'sm2_enc_j', 'sm2_za': 'sm2_za_j', 'sm2_kex': 'sm2_kex_j'}
@@ -742,6 +756,17 @@ def gen_c11(tier, rng):
             yield ('special-Z-representation', 'pt_add %s %s' % (E.jac(A, zs), E.jac(Bp, z2)), None)
             yield ('special-Z-representation', 'pt_dbl %s' % E.jac(A, zs), None)
             yield ('special-Z-representation', 'pt_mul %s %s' % (E.jac(A, zs), H(rng.getrandbits(64))), None)
+        # two DIFFERENT points with the same y (x2 the other root of x^3 + ax + b - y^2): "equal y" must not be read as "equal or opposite"
+        Sy = E.same_y_partner(A)
+        if Sy is not None:
+            for za, zb in ((1, 1), (z1, z2), (z1, 1), (1, z2)):
+                yield ('add-same-y-different-x', 'pt_add %s %s' % (E.jac(A, za), E.jac(Sy, zb)), None)
+                yield ('add-same-y-different-x', 'pt_add %s %s' % (E.jac(Sy, za), E.jac(E.neg(A), zb)), None)
+        for zs in small_order_elements(P):
+            yield ('special-Z-small-order', 'pt_add %s %s' % (E.jac(A, zs), E.jac(Bp, z2)), None)
+            yield ('special-Z-small-order', 'pt_add %s %s' % (E.jac(Bp, z2), E.jac(A, zs)), None)
+            yield ('special-Z-small-order', 'pt_dbl %s' % E.jac(A, zs), None)
+            yield ('special-Z-small-order', 'pt_bytes %s 0' % E.jac(A, zs), None)
         # (X, Y, Z) and (X, Y, -Z): identical X and Y limbs, the second denotes -P
         jx = E.jac(A, z1).split(':')
         negz = ':'.join([jx[0], jx[1], H((P - z1) * E.R % P)])
@@ -956,6 +981,24 @@ def gen_c19(tier, rng):
         yield ('point-coord>=p-same-residue', 'pk_hex %s' % hx(('04' + H(sx + P) + H(sy)).encode()), None)
         yield ('point-coord>=p-same-residue', 'sm2_spki_dec %s04%s%s' % (spki_prefix_, H(sx + P), H(sy)), None)
         yield ('point-small-x-valid', 'pk_new 04%s%s' % (H(sx), H(sy)), None)
+    # off-curve points whose y^2 and x^3 + ax + b differ in exactly ONE bit of the stored (Montgomery) or of the canonical value
+    bits = range(0, 256, 3) if tier == 'thorough' else [0, 7, 31, 32, 34, 47, 63, 64, 95, 96, 100, 127, 128, 160, 191, 192, 224, 250, 255]
+    for mont in (True, False):
+        for bit, nx, ny in E.near_miss_points(rng, bits, mont):
+            cls = 'point-off-curve-one-bit-%s' % ('mont' if mont else 'canonical')
+            yield (cls, 'pk_new 04%s%s' % (H(nx), H(ny)), 'ERR')
+            if bit % 4 == 0 or tier == 'thorough':
+                yield (cls, 'pk_hex %s' % hx(('04' + H(nx) + H(ny)).encode()), 'ERR')
+                yield (cls, 'sm2_spki_dec %s04%s%s' % (spki_prefix_, H(nx), H(ny)), None)
+                yield (cls, 'pt_valid %s' % E.jac((nx, ny), 1), None)
+    # VALID points whose y^2 = x^3 + ax + b has special STORED limbs ([1,0,0,0] = R^-1, [2,0,0,0], [0,1,0,0]) or is 1, 4: shortcuts in the
+    # square root of point decompression ("0 and 1 are their own roots" applied to the stored word)
+    rinv_ = pow(E.R, -1, P)
+    for (vx, vy) in E.points_with_rhs([rinv_, 4 * rinv_ % P, (1 << 128) * rinv_ % P, 1, 4, 9]):
+        for yy in (vy, P - vy):
+            yield ('point-rhs-special-compressed', 'pk_new %s%s' % ('02' if yy % 2 == 0 else '03', H(vx)), 'OK 04%s%s %s%s' % (H(vx), H(yy), '02' if yy % 2 == 0 else '03', H(vx)))
+            yield ('point-rhs-special-compressed', 'pk_hex %s' % hx((('02' if yy % 2 == 0 else '03') + H(vx)).encode()), None)
+        yield ('point-rhs-special', 'pk_new 04%s%s' % (H(vx), H(vy)), None)
     for (sx, sy) in E.small_y_points(2):
         yield ('point-small-y-valid', 'pk_new 04%s%s' % (H(sx), H(sy)), None)
         yield ('point-coord>=p-same-residue', 'pk_new 04%s%s' % (H(sx), H(sy + P)), None)
